@@ -102,7 +102,9 @@ impl Hist {
         Ok(Hist::with_driver(case, drv, or))
     }
 
-    pub fn with_driver(case: &Case, drv: Driver, or: Oracles) -> Hist {
+    pub fn with_driver(case: &Case, mut drv: Driver, or: Oracles) -> Hist {
+        // half of the histories announce the body length the way an unchunked upload does
+        drv.content_length = case.salt % 2 == 1;
         let clients: Vec<Uuid> = (0..case.nclients).map(|i| crate::case::client_uuid(case.salt, i)).collect();
         Hist {
             drv,
